@@ -733,7 +733,107 @@ func reviewedLoop(p *Program, pkg *packages.Package, fd *ast.FuncDecl, l *ast.Fo
 type cursorClient struct {
 	BaseClient
 	InlinePredicates
-	fn string
+	fn      string
+	errKind string
+	// needs: methods that cut a sub-parser out before reading anything themselves - their callers have to
+	// call them with the cursor within the tokens
+	needs     map[*types.Func]string
+	self      *types.Func
+	quietPass bool // a pass that only computes needs
+}
+
+// SplitAssign: `tok, ok := x.next()` continues as (a token was read) or (the end of the range was reported, after
+// which the cursor lies beyond the tokens).
+func (c *cursorClient) SplitAssign(e *Engine, st *State, lhs, rhs []ast.Expr, _ ast.Stmt) []*State {
+	if len(rhs) != 1 || len(lhs) != 2 {
+		return nil
+	}
+	call, ok := ast.Unparen(rhs[0]).(*ast.CallExpr)
+	if !ok {
+		return nil
+	}
+	callee := Callee(e.Info, call)
+	if cursorOf(callee) != "parser" || fnName(callee) != "next" {
+		return nil
+	}
+	sel, ok := ast.Unparen(call.Fun).(*ast.SelectorExpr)
+	if !ok {
+		return nil
+	}
+	rk := e.CanonSt(st, sel.X)
+	if !rk.OK {
+		return nil
+	}
+	var out []*State
+	if id, isID := lhs[1].(*ast.Ident); isID && id.Name != "_" {
+		if t := e.AssumeBool(st, id, true); t != nil {
+			out = append(out, t.WithExt("inrange:"+rk.Key, "1"))
+		}
+		if f := e.AssumeBool(st, id, false); f != nil {
+			out = append(out, f.WithExt("inrange:"+rk.Key, "0"))
+		}
+		return out
+	}
+	if c.errKind == "" {
+		return nil
+	}
+	k := e.CanonSt(st, lhs[0])
+	if !k.OK {
+		return nil
+	}
+	kk := keyInfo{Key: k.Key + ".Kind", Objs: k.Objs, Fields: k.Fields, Heap: k.Heap, OK: true}
+	if real := e.update(st, kk, func(f *Fact) { f.Ne = addSorted(f.Ne, c.errKind) }); real != nil {
+		out = append(out, real.WithExt("inrange:"+rk.Key, "1"))
+	}
+	// (an error token of the source has the same kind as the end marker: the cursor is then still in range, which
+	// is the harmless direction - this branch only ever makes the rule stricter)
+	if eof := e.update(st, kk, func(f *Fact) {
+		if f.HasEq && f.Eq != c.errKind {
+			f.Ne = addSorted(f.Ne, c.errKind)
+		}
+		f.HasEq, f.Eq = true, c.errKind
+	}); eof != nil {
+		out = append(out, eof.WithExt("inrange:"+rk.Key, "0"))
+	}
+	return out
+}
+
+// PostAssign: a parser that has just been made stands at the first token of its range.
+func (c *cursorClient) PostAssign(e *Engine, st *State, lhs, rhs []ast.Expr, _ ast.Stmt) *State {
+	if len(lhs) != len(rhs) {
+		return nil
+	}
+	out := st
+	for i, r := range rhs {
+		x := ast.Unparen(r)
+		if u, ok := x.(*ast.UnaryExpr); ok && u.Op == token.AND {
+			x = ast.Unparen(u.X)
+		}
+		cl, ok := x.(*ast.CompositeLit)
+		if !ok || !strings.HasSuffix(TypeStr(e.Info.TypeOf(cl)), "parser.parser") {
+			continue
+		}
+		zero := true
+		for _, el := range cl.Elts {
+			kv, isKV := el.(*ast.KeyValueExpr)
+			if !isKV {
+				zero = false
+				continue
+			}
+			if f, _ := objOf(e.Info, kv.Key).(*types.Var); f != nil && fldName(f) == "pos" {
+				if v, isC := constInt(e.Info, kv.Value); !isC || v != 0 {
+					zero = false
+				}
+			}
+		}
+		if k := e.CanonSt(out, lhs[i]); k.OK && zero {
+			out = out.WithExt("inrange:"+k.Key, "1")
+		}
+	}
+	if out != st {
+		return out
+	}
+	return nil
 }
 
 func (c *cursorClient) PostCall(e *Engine, st *State, call *ast.CallExpr, callee *types.Func) *State {
@@ -750,16 +850,92 @@ func (c *cursorClient) PostCall(e *Engine, st *State, call *ast.CallExpr, callee
 	}
 	switch fnName(callee) {
 	case "next":
-		return st.WithExt("lastop:"+k.Key, "next")
+		return st.WithExt("lastop:"+k.Key, "next").WithExt("inrange:"+k.Key, "")
 	case "prev":
 		return st.WithExt("lastop:"+k.Key, "prev")
 	default:
-		return st.WithExt("lastop:"+k.Key, "other")
+		return st.WithExt("lastop:"+k.Key, "other").WithExt("inrange:"+k.Key, "")
 	}
 }
 
 func (c *cursorClient) PreCall(e *Engine, st *State, call *ast.CallExpr, callee *types.Func) *State {
+	if cursorOf(callee) == "parser" && isSplitter(e.P, callee) {
+		// a sub-parser is cut out of the tokens from the cursor on: the cursor must lie within them. Once next()
+		// has reported the end the cursor is one past the end, and slicing from there panics.
+		sel, ok := ast.Unparen(call.Fun).(*ast.SelectorExpr)
+		if !ok {
+			return nil
+		}
+		k := e.CanonSt(st, sel.X)
+		n, idx := 0, 0
+		ast.Inspect(e.Func.Body, func(x ast.Node) bool {
+			if cc, ok := x.(*ast.CallExpr); ok {
+				if f := Callee(e.Info, cc); cursorOf(f) == "parser" && isSplitter(e.P, f) {
+					n++
+					if cc == call {
+						idx = n
+					}
+				}
+			}
+			return true
+		})
+		val := ""
+		if k.OK {
+			val = st.Ext("inrange:" + k.Key)
+		}
+		in := val == "1"
+		if val == "entry" {
+			// nothing was read since the method was entered: the callers answer for it
+			if c.needs[c.self] == "" {
+				c.needs[c.self] = fmt.Sprintf("%s at %s", callee.Name(), e.P.Pos(call.Pos()))
+			}
+			in = true
+		}
+		if c.quietPass {
+			return nil
+		}
+		key := fmt.Sprintf("%s %s() #%d starts within the tokens", c.fn, callee.Name(), idx)
+		how := "the most recent cursor operation before the cut is a read that is known to have returned a token (or the parser has just been created)"
+		if val == "entry" {
+			how = "nothing is read between the entry of the method and the cut: every call of the method is checked to be made with the cursor within the tokens"
+		}
+		e.Site("C12/cursor", key, call, in, how)
+		if !in {
+			e.Site("C12/cursor", key, call, false, "the sub-parser is cut out on a path where the cursor is not known to lie within the tokens (no successful next() directly before, or a production ran in between that may have reached the end): after the end was reported the position is one past the tokens and the slice panics")
+		}
+		return nil
+	}
+	if cursorOf(callee) == "parser" && c.needs[callee] != "" {
+		sel, ok := ast.Unparen(call.Fun).(*ast.SelectorExpr)
+		if !ok {
+			return nil
+		}
+		k := e.CanonSt(st, sel.X)
+		val := ""
+		if k.OK {
+			val = st.Ext("inrange:" + k.Key)
+		}
+		in := val == "1"
+		if val == "entry" {
+			if c.needs[c.self] == "" {
+				c.needs[c.self] = fmt.Sprintf("%s (which starts with %s) at %s", callee.Name(), c.needs[callee], e.P.Pos(call.Pos()))
+			}
+			in = true
+		}
+		if c.quietPass {
+			return nil
+		}
+		key := fmt.Sprintf("%s calls %s with the cursor within the tokens", c.fn, callee.Name())
+		e.Site("C12/cursor", key, call, in, "the method cuts a sub-parser out before it reads anything ("+c.needs[callee]+"); the call follows a read that is known to have returned a token")
+		if !in {
+			e.Site("C12/cursor", key, call, false, "the method cuts a sub-parser out before it reads anything ("+c.needs[callee]+") and is called on a path where the cursor is not known to lie within the tokens: after the end was reported the position is one past the tokens and the slice panics")
+		}
+		return nil
+	}
 	if cursorOf(callee) != "parser" || fnName(callee) != "prev" {
+		return nil
+	}
+	if c.quietPass {
 		return nil
 	}
 	sel := ast.Unparen(call.Fun).(*ast.SelectorExpr)
@@ -789,24 +965,75 @@ func (c *cursorClient) PreCall(e *Engine, st *State, call *ast.CallExpr, callee 
 func ruleC12Cursor(p *Program, r *Run) {
 	pkg := p.Parser
 	info := pkg.TypesInfo
+	errKind := ""
+	if k, ok := pkg.Types.Scope().Lookup("TokenError").(*types.Const); ok {
+		errKind = constKey(k.Val())
+	}
+	needs := map[*types.Func]string{}
+	var units []*ast.FuncDecl
 	for _, fd := range AllFuncs(pkg) {
 		uses := false
 		ast.Inspect(fd.Body, func(n ast.Node) bool {
 			if call, ok := n.(*ast.CallExpr); ok {
-				if f := Callee(info, call); cursorOf(f) == "parser" && fnName(f) == "prev" {
-					uses = true
+				if f := Callee(info, call); cursorOf(f) == "parser" && fnName(f) != "next" {
+					uses = true // gives a token back, cuts a sub-parser out, or calls a method that may
 				}
 			}
 			return true
 		})
-		if !uses {
+		if uses {
+			units = append(units, fd)
+		}
+	}
+	runCursor := func(fd *ast.FuncDecl, quiet bool) *Engine {
+		c := &cursorClient{fn: FuncName(pkg, fd), errKind: errKind, needs: needs, self: FuncObj(pkg, fd), quietPass: quiet}
+		e := NewEngine(p, pkg, fd, c)
+		init := newState()
+		if fd.Recv != nil && len(fd.Recv.List[0].Names) == 1 && cursorOf(c.self) == "parser" {
+			if k := e.Canon(fd.Recv.List[0].Names[0]); k.OK {
+				init = init.WithExt("inrange:"+k.Key, "entry")
+			}
+		}
+		e.Run(init)
+		return e
+	}
+	// which methods rely on their callers (a few rounds: the need is handed up the call chain)
+	for round := 0; round < 6; round++ {
+		before := len(needs)
+		for _, fd := range units {
+			usesSplit := false
+			ast.Inspect(fd.Body, func(n ast.Node) bool {
+				if call, ok := n.(*ast.CallExpr); ok {
+					if f := Callee(info, call); isSplitter(p, f) || needs[f] != "" {
+						usesSplit = true
+					}
+				}
+				return true
+			})
+			if usesSplit {
+				runCursor(fd, true)
+			}
+		}
+		if len(needs) == before {
+			break
+		}
+	}
+	for _, fd := range units {
+		relevant := false
+		ast.Inspect(fd.Body, func(n ast.Node) bool {
+			if call, ok := n.(*ast.CallExpr); ok {
+				if f := Callee(info, call); cursorOf(f) == "parser" && (fnName(f) == "prev" || isSplitter(p, f) || needs[f] != "") {
+					relevant = true
+				}
+			}
+			return true
+		})
+		if !relevant {
 			continue
 		}
 		fn := FuncName(pkg, fd)
 		r.Saw(fn)
-		c := &cursorClient{fn: fn}
-		e := NewEngine(p, pkg, fd, c)
-		e.Run(nil)
+		e := runCursor(fd, false)
 		for _, m := range e.Errs {
 			r.Fail("C12/cursor", fn+" engine", "-", m)
 		}
@@ -1201,4 +1428,33 @@ func localDescends(p *Program, info *types.Info, fd *ast.FuncDecl, v types.Objec
 func isPlainVar(o types.Object) bool {
 	b, ok := o.Type().Underlying().(*types.Basic)
 	return ok && b.Info()&types.IsInteger != 0
+}
+
+// isSplitter: a parser method that cuts a sub-parser out of the remaining tokens (returns a parser).
+func isSplitter(p *Program, f *types.Func) bool {
+	if f == nil || cursorOf(f) != "parser" {
+		return false
+	}
+	res := f.Type().(*types.Signature).Results()
+	if res.Len() != 1 || !strings.HasSuffix(TypeStr(res.At(0).Type()), "parser.parser") {
+		return false
+	}
+	// it advances the cursor over what it cuts out (a constructor that only builds the sub-parser from positions
+	// it is given is not one)
+	w, ok := p.Summaries().Writes[f]
+	if !ok && f.Origin() != nil {
+		w, ok = p.Summaries().Writes[f.Origin()]
+	}
+	if !ok {
+		return false
+	}
+	if w.All {
+		return true
+	}
+	for fld := range w.Fields {
+		if fldName(fld) == "pos" {
+			return true
+		}
+	}
+	return false
 }
